@@ -123,7 +123,9 @@ MovePieces ==
 
 \* ---- blocks --------------------------------------------------------------------------------------------------------
 Bodies == {P("~a", <<IntV(1)>>), P("~a~^, ", <<Sy("e")>>), P("<~a~a>", <<IntV(1), S("b")>>), P("<~a~^~a>", <<IntV(1), S("b")>>), P("~a~:^;", <<IntV(3)>>),
-           P("[~d:~a]~^ ", <<IntV(7), S("v")>>), P("~a~^~a~^~a", <<IntV(1), IntV(2), IntV(3)>>), P("x~^y", <<>>), P("~a~*", <<IntV(1), IntV(2)>>), P("~a~#[~; and ~:;, ~]", <<S("w")>>)}
+           P("[~d:~a]~^ ", <<IntV(7), S("v")>>), P("~a~^~a~^~a", <<IntV(1), IntV(2), IntV(3)>>), P("x~^y", <<>>), P("~a~*", <<IntV(1), IntV(2)>>), P("~a~#[~; and ~:;, ~]", <<S("w")>>),
+           \* bodies whose text depends on the column and on what was written before: every round starts where the last one ended
+           P("~&~a", <<Sy("r")>>), P("~&~a~%", <<Sy("r")>>), P("~a~6t|", <<S("ab")>>), P("~a~,4@t|", <<S("abc")>>), P("~a~&", <<IntV(12)>>)}
 RECURSIVE Times(_, _)
 Times(xs, n) == IF n = 0 THEN <<>> ELSE xs \o Times(xs, n - 1)
 Cut(xs, c) == SubSeq(xs, 1, IF Len(xs) > c THEN Len(xs) - c ELSE 0)
